@@ -57,6 +57,8 @@ func tokBytes(t uint64) message.Token {
 type world struct {
 	conMID   map[uint64]int32 // token -> message ID of a confirmable registration request that was not acknowledged yet
 	deregMID map[uint64]int32 // token -> message ID of the deregistration request Cancel wrote
+	deregTag map[uint64]string // token -> ETag (hex, "-" if none) carried by the deregistration request Cancel wrote
+	deregTCP map[uint64]bool   // stream: a deregistration request for the token was seen
 	mu      sync.Mutex
 	events  []string
 	udp     *udpclient.Conn
@@ -261,6 +263,7 @@ func (w *world) scanSent() {
 	if w.conMID == nil {
 		w.conMID = map[uint64]int32{}
 		w.deregMID = map[uint64]int32{}
+		w.deregTag = map[uint64]string{}
 	}
 	for _, d := range w.us.TakeSent() {
 		q := pool.NewMessage(context.Background())
@@ -270,8 +273,38 @@ func (w *world) scanSent() {
 		t := binary.BigEndian.Uint64(append(make([]byte, 8-len(q.Token())), q.Token()...))
 		if v, err := q.Observe(); err == nil && v == 1 {
 			w.deregMID[t] = q.MessageID()
+			w.deregTag[t] = etagHex(q)
 		} else if q.Type() == message.Confirmable {
 			w.conMID[t] = q.MessageID()
+		}
+	}
+}
+
+func etagHex(q *pool.Message) string {
+	e, err := q.ETag()
+	if err != nil || len(e) == 0 {
+		return "-"
+	}
+	return fmt.Sprintf("%x", e)
+}
+
+// scanFrames (stream): drains what the connection wrote and remembers the deregistration requests (GET with Observe=1) by token.
+func (w *world) scanFrames() {
+	if w.deregTag == nil {
+		w.deregTag = map[uint64]string{}
+	}
+	if w.deregTCP == nil {
+		w.deregTCP = map[uint64]bool{}
+	}
+	for _, fr := range w.tp.TakeFrames() {
+		q := pool.NewMessage(context.Background())
+		if _, err := q.UnmarshalWithDecoder(tcpcoder.DefaultCoder, fr); err != nil || q.Code() != codes.GET {
+			continue
+		}
+		if v, err := q.Observe(); err == nil && v == 1 {
+			t := binary.BigEndian.Uint64(append(make([]byte, 8-len(q.Token())), q.Token()...))
+			w.deregTCP[t] = true
+			w.deregTag[t] = etagHex(q)
 		}
 	}
 }
@@ -294,15 +327,9 @@ func (w *world) answerDeregistration(tok uint64) {
 		_ = w.udp.Process(nil, append([]byte(nil), b...))
 		return
 	}
-	asked := false
-	for _, fr := range w.tp.TakeFrames() {
-		q := pool.NewMessage(context.Background())
-		if _, err := q.UnmarshalWithDecoder(tcpcoder.DefaultCoder, fr); err == nil && q.Code() == codes.GET && bytes.Equal(q.Token(), tokBytes(tok)) {
-			if v, err := q.Observe(); err == nil && v == 1 {
-				asked = true
-			}
-		}
-	}
+	w.scanFrames()
+	asked := w.deregTCP[tok]
+	delete(w.deregTCP, tok)
 	if !asked {
 		return // Cancel sent nothing (the observation was already gone): an answer would be an unsolicited message
 	}
@@ -429,8 +456,10 @@ func runCase(t *testing.T, transport string, ops [][]string) []string {
 							w.scanSent()
 							delete(w.deregMID, r.tok) // only a deregistration request written from now on is answered
 						} else {
-							w.tp.TakeFrames()
+							w.scanFrames()
+							delete(w.deregTCP, r.tok)
 						}
+						delete(w.deregTag, r.tok)
 						ctx, cancel := context.WithTimeout(context.Background(), time.Millisecond)
 						go func() {
 							// the deregistration request of every other registration is answered (2.05 without Observe); the
@@ -440,6 +469,16 @@ func runCase(t *testing.T, transport string, ops [][]string) []string {
 							w.log(fmt.Sprintf("cancelreturned %d", id))
 						}()
 						synctest.Wait()
+						// the deregistration request Cancel wrote (if any): which ETag does it carry?
+						if w.udp != nil {
+							w.scanSent()
+						} else {
+							w.scanFrames()
+						}
+						if e, ok := w.deregTag[r.tok]; ok {
+							delete(w.deregTag, r.tok)
+							w.log(fmt.Sprintf("dereg %d %s", id, e))
+						}
 						if id%2 == 1 {
 							w.answerDeregistration(r.tok)
 							synctest.Wait()
